@@ -4,7 +4,8 @@
 // bound: pinned byte encodings for fixed keys (namespace secret [1; 32], author secret [2; 32]) and three fixed entries (a record with a
 // 300-byte length, a deletion marker, a key with 0xFF bytes): the ids, the bytes that are signed, the postcard bytes of SignedEntry, of a
 // Capability, of a reconciliation Message carrying the entries, and the length-prefixed frame of the sync protocol - compared with
-// literals taken from the pinned tree. (ed25519 signatures are deterministic, so the bytes are reproducible.)
+// literals taken from the pinned tree; Capability::raw / from_raw and its postcard form round-trip for write and read capabilities, also for read ids
+// that are not curve points. (ed25519 signatures are deterministic, so the bytes are reproducible.)
 #[cfg(test)]
 mod verif_rp_c09_pinned {
     use super::*;
@@ -60,6 +61,26 @@ entry 2: fingerprint = b5841fb64d38e0a03dc286a0f5dc29c0ea8c3dabdfb046a78abedc7e0
 postcard Capability::Write = 00200101010101010101010101010101010101010101010101010101010101010101\n\
 postcard Capability::Read = 018a88e3dd7409f195fd52db2d3cba5d72ca6709bf1d94121bf3748801b40f6f5c\n\
 Capability::raw = 1:0101010101010101010101010101010101010101010101010101010101010101\n";
+
+    /// `Capability::raw` / `from_raw` are inverse for every capability, also for read ids that are not curve points and for
+    /// neighbouring ids (ids are plain 32 bytes everywhere else)
+    #[test]
+    fn capability_raw_round_trips() {
+        let ns = NamespaceSecret::from_bytes(&[1u8; 32]);
+        let mut caps = vec![Capability::Write(ns.clone()), Capability::Read(ns.id())];
+        for b in [0u8, 1, 2, 0x7f, 0x80, 0xfe, 0xff] { caps.push(Capability::Read(NamespaceId::from(&[b; 32]))); }
+        for cap in caps {
+            let (kind, bytes) = cap.raw();
+            let back = Capability::from_raw(kind, &bytes);
+            match back {
+                Ok(c) => assert_eq!((c.kind() as u8, c.id()), (cap.kind() as u8, cap.id()), "WITNESS Capability::from_raw(raw({cap:?})) gives another capability"),
+                Err(e) => panic!("WITNESS Capability::from_raw(raw({cap:?})) fails: {e:#}"),
+            }
+            let enc = postcard::to_stdvec(&cap).unwrap();
+            let dec: Capability = postcard::from_bytes(&enc).unwrap_or_else(|e| panic!("WITNESS postcard round trip of {cap:?} fails: {e}"));
+            assert_eq!((dec.kind() as u8, dec.id()), (cap.kind() as u8, cap.id()), "WITNESS postcard round trip of {cap:?}");
+        }
+    }
 
     #[test]
     fn encodings_are_the_pinned_ones() {
